@@ -449,7 +449,7 @@ func (env *verifEnv) coqIdp() string {
 	salg, _ := publicToPreferedJoseSigAlgo(st.Signer.Public())
 	var cls []string
 	for _, c := range st.Config.OpenIDConnectIDP.Client {
-		cls = append(cls, fmt.Sprintf("{| cl_id := %s; cl_secret := %s |}", coqStr(c.ClientID), coqStr(c.ClientSecret)))
+		cls = append(cls, fmt.Sprintf("{| cl_id := %s; cl_secret := %s; cl_allow_aud := %s |}", coqStr(c.ClientID), coqStr(c.ClientSecret), coqBool(c.AllowClientChosenAudiences)))
 	}
 	return fmt.Sprintf("{| srv := {| s_issuer := %s; s_keys := [%s]; s_signer := %d%%N; s_signer_alg := %d%%N; s_userinfo := %s |};\n     clients := [%s] |}",
 		coqStr(st.idpGetIssuer()), strings.Join(keys, "; "), env.signerKeyID(), tokAlgCode(string(salg)),
